@@ -174,12 +174,14 @@ CLAIMED = {
         "inputs only: the procedure is run in-process with the real library against a reference server with every request "
         "logged, and judged (target == B, validation 1, requested bytes == extents of chunks neither verified-present nor "
         "available intact from A, none twice) over file pairs x initial targets x damaged old files x limits {1,2,3,7,127,255,-1} "
-        "x fragmentations x dropped-and-retried transfers, with the model run on the same inputs.",
+        "x fragmentations x dropped-and-retried transfers, with the model run on the same inputs; and the REAL zckdl binary of the "
+        "working tree (src/zck_dl.c + libcurl) is run against a loopback HTTP range server (single-range / multipart / 200-when-"
+        "too-many-ranges, uneven socket writes) and judged by the same predicate on the server's request log and the file it left.",
    design_ref="DESIGN.md section 7a C04",
    note="Partial: completeness/termination/exactness are checked (correspondence + predicate on the implementation), soundness is "
         "proved (hypotheses: the old file has the same chunk checksum type; an empty dictionary entry has no stored bytes). "
-        "libcurl and zckdl's own plumbing (range back-off, --fail-no-ranges) are not modelled; the in-process procedure "
-        "mirrors zckdl's call sequence.",
+        "libcurl and zckdl's own plumbing (range back-off, --fail-no-ranges) are not modelled: they are exercised by the real-zckdl "
+        "runs and judged by the predicate only.",
    technique="Lean 4 proof (invariant 'valid => present' established by the scan (induction over the index with exact-or-EOF read "
              "position), kept by copy, reset, every transfer and round; extent-wise equality of files with a running index) + "
              "differential correspondence of the whole procedure with logged requests"),
@@ -194,7 +196,9 @@ CLAIMED = {
         "(C09 find_valid_exact) and is in no request of the restart (C04 present_not_requested / valid_not_requested).  NOT proved (as C04): that the restart does end that way.  Decided on explored inputs: the real library is run in-process with the k-th write(2) on the "
         "target cut short (none/half/all bytes) and the run abandoned, for EVERY k of small scenarios and for chains of 2-5 "
         "interruptions; the restart is judged from the target as the interruption left it: converges to B, its scan trusts only "
-        "verified-present chunks, its requests are exactly the chunks not present and not available from A.",
+        "verified-present chunks, its requests are exactly the chunks not present and not available from A.  The REAL zckdl binary "
+        "is also killed (LD_PRELOAD: _exit inside the k-th write(2) on the target, none/half/all bytes stored) against the loopback "
+        "range server and run again to completion, judged the same way from the file the kill left.",
    design_ref="DESIGN.md section 7 C11",
    note="Partial: convergence and no-refetch are checked on every kill point explored, not proved; process death is modelled as "
         "abandoning the contexts inside write(2) (siglongjmp), torn writes below write(2) granularity are not considered.",
